@@ -1,7 +1,7 @@
 #!/usr/bin/env python3
 # jobs for units/codec_comp.cpp (fixed-shape composites): every lemma x type x reader/writer kit.
 # Byte loops have constant trip count MAXN; element loops are constant too: complete unwinding.
-types = [("arru16", 10), ("arrf32", 14), ("pair", 14), ("tuple", 11), ("s1", 18), ("s2", 20), ("s3", 12), ("v1", 5), ("opti32", 7), ("resu16", 8), ("var", 9)]
+types = [("arru16", 10), ("arrf32", 14), ("pair", 14), ("tuple", 11), ("s1", 18), ("s2", 20), ("s3", 12), ("s4", 12), ("v1", 5), ("opti32", 7), ("resu16", 8), ("var", 9)]
 out = []
 extra = ""
 def job(name, props, unwind, tier="quick"):
@@ -12,7 +12,7 @@ for t, n in types:
     u = n + 2
     # element loops of logical buffers run at most `capacity` times (larger counts are rejected first):
     # a tight per-loop bound, discharged by the unwinding assertion
-    extra = "  unwindset LogicalBuffer 5\n" if t in ("s1", "s2", "s3") else ""
+    extra = "  unwindset LogicalBuffer 5\n" if t in ("s1", "s2", "s3", "s4") else ""
     job("enc_%s" % t, "C03 C06", u)
     job("dec_%s_spec" % t, "C04 C11", u)
     job("dec_%s_ped" % t, "C04 C02 C11", u)
